@@ -12,6 +12,10 @@ NASTY = [
     b'[{"jsonrpc":"2.0","error":{"code":-32700,"message":"Parse error"},"id":null},{"jsonrpc":"2.0","error":{"code":-32700,"message":"Parse error"},"id":null},'
     b'{"jsonrpc":"2.0","error":{"code":-32700,"message":"Parse error"},"id":null}]',
     b'[{"result":1,"id":null},{"result":2,"id":null}]', b'[{"jsonrpc":"2.0","result":1,"id":true},{"jsonrpc":"2.0","result":2,"id":false}]',
+    b'{"result":null,"error":{"code":1e999,"message":"x"},"id":0}', b'{"result":null,"error":Infinity,"id":0}',
+    b'{"result":null,"error":-Infinity,"id":0}', b'{"result":null,"error":{"code":NaN,"message":"x"},"id":0}', b'{"error":NaN,"id":0}',
+    b'{"jsonrpc":"2.0","error":{"code":-1e999,"message":"x"},"id":0}', b'{"jsonrpc":"2.0","error":{"code":2.5,"message":"x"},"id":0}',
+    b'[{"result":null,"error":{"code":1e999,"message":"x"},"id":0},{"result":1,"id":1}]',
     b'[{"result":1,"id":0},{"result":2,"id":"0"}]', b'[{"result":1,"id":1.5},{"result":2,"id":true}]',
     b'[' * 100000, b'[' * 3000 + b']' * 3000, b'{"a":' * 5000 + b'1' + b'}' * 5000,
     b'{"jsonrpc":"2.0","id":' + b'9' * 5000 + b',"result":1}', b'{"jsonrpc":"2.0","method":"m","params":[' + b'1' * 4301 + b'],"id":1}',
